@@ -67,6 +67,11 @@ def main(tier: str) -> int:
     for t, c in first.items():
         if live.get(str(_get_lxml_tag(t))) != c:
             run.violation("registry|dispatch-differs-from-registration-order", {"tag": t, "first_registered": c, "live": live.get(str(_get_lxml_tag(t)))})
+    # arguments that come in four sides: given alone, all of them take effect or none does
+    for v in rl.sibling_argument_effects():
+        odd = [s for s, e in v["effect_alone"].items() if e is not True]
+        run.violation(f"sibling-argument-ignored|{v['class']}|{v['family']}|{v['group']}_{'+'.join(odd)}", {"kind": "sibling-argument-ignored", **v})
+        run.klass("siblings", v["class"], v["family"], v["group"])
     per = 12 if tier == "quick" else 300
     names = sorted(rl.classes())
     import multiprocessing as mp
